@@ -25,7 +25,10 @@ CHECK = Check(
 
 
 def _tight_radii(t):
-    d, how = t
+    d, how, no_tf = t
+    if no_tf:
+        # the ego-frame rendering is handed over without any transform (hand-built frames: base_link objects need no ego pose)
+        d["bl_no_tf"] = True
     if how and d["thr"]["center"]:
         # matchable radii only a quarter above the first centre-distance row (estimates sit at 0.55 .. 1.6 times those
         # thresholds from their ground truths): many pairs lie in the outer part of the radius, where any frame-dependent
@@ -36,7 +39,7 @@ def _tight_radii(t):
 
 
 def _cases(tier):
-    return st.tuples(MG.manager_cases(tier, tasks=("detection", "tracking"), allow_map=False), st.booleans()).map(_tight_radii)
+    return st.tuples(MG.manager_cases(tier, tasks=("detection", "tracking"), allow_map=False), st.booleans(), st.booleans()).map(_tight_radii)
 
 
 def _tracking_cases(tier):
@@ -66,6 +69,7 @@ def ego_vs_map_crowded(ctx, d):
 def _compare(ctx, d):
     import math
 
+    ctx.cls("ego_frame_without_transforms" if d.get("bl_no_tf") else "ego_frame_with_transforms")
     a = MG.run_case(ctx, d, frame="base_link", what="add_frame_result(base_link)")
     b = MG.run_case(ctx, d, frame="map", what="add_frame_result(map)")
     if a is None or b is None:
